@@ -409,7 +409,19 @@ def make_datetime_module(E):
 
 # --------------------------------------------------------------------------- inspect
 
+EMPTY = Extern('inspect._empty')
+
+
+def _param_attr(E, obj, name):
+    if name == 'empty':
+        return EMPTY
+    return M.NOATTR
+
+
 def make_inspect_module(E):
+    M.OBJ_ATTR_MODELS['Parameter'] = _param_attr
+    M.OBJ_ATTR_MODELS['Signature'] = lambda E_, o, n: EMPTY if n == 'empty' else M.NOATTR
+
     def signature(f):
         fn = f.func if isinstance(f, ENG.BoundMethod) else f
         if not isinstance(fn, ENG.PyFunc):
@@ -423,9 +435,9 @@ def make_inspect_module(E):
         skip = 1 if isinstance(f, ENG.BoundMethod) else 0
         env = ENG.Env(fn.module)
         for p in names[skip:]:
-            ann = E.eval(p.annotation, env) if p.annotation is not None else Extern('inspect._empty')
+            ann = E.eval(p.annotation, env) if p.annotation is not None else EMPTY
             params[p.arg] = SObj(_cls('Parameter'), {'name': p.arg, 'annotation': ann})
-        return SObj(_cls('Signature'), {'parameters': params})
+        return SObj(_cls('Signature'), {'parameters': params, 'return_annotation': EMPTY})
     return M.ExternModule('inspect', dict(signature=Builtin('inspect.signature', signature),
                                           iscoroutinefunction=Builtin('iscoroutinefunction',
                                                                       lambda f: isinstance(f, ENG.PyFunc) and f.is_async)))
